@@ -149,8 +149,15 @@ def concatBytes : List T → T
   | b :: rest => rest.foldl (fun acc x => .concat acc x) b
 
 /-- `unbox_int(slice.unwrap())` pushed with `push_any`: an int when every byte is concrete, else the concatenation -/
+def litBytes? : List T → Option (List Nat)
+  | [] => some []
+  | b :: rest =>
+    match litByte? b, litBytes? rest with
+    | some n, some ns => some (n :: ns)
+    | _, _ => none
+
 def bytesWord (s : Simp) (bs : List T) : HV :=
-  match bs.mapM litByte? with
+  match litBytes? bs with
   | some ns => .bv 256 (.con (Evm.bytesToNat ns))
   | none => mkBV s (.term (concatBytes bs)) 256
 
